@@ -18,7 +18,7 @@ RULE = ('a case is a registration history of 1-3 calendar configurations (holida
         'weekend in {Sat-Sun, Fri-Sat, Sun, none}, adj f/p/m, 2-year range) on 1-2 registry keys; after each registration the calendar fetched BY KEY is probed on every day of '
         'the inner range (150-day margins) x n (quick: 13 values incl. +-40; thorough: every n in [-40,40]); non-trivial = a configuration with a holiday run crossing a month end '
         'next to a weekend, or a re-registration of a key whose index was already populated; distinct = canonical hash of the history')
-RULE_ALSO = "; added by the coverage audit and round 8: '+0b' / '-0b' / day-then-business-day tenors through Calendar.dt_bump, adjust of lists / tuples / dicts, the very first call on a fresh calendar, closures of 33-55 days, one holiday list edited in place and registered again"
+RULE_ALSO = "; added by the coverage audit and round 8: '+0b' / '-0b' / day-then-business-day tenors through Calendar.dt_bump, adjust of lists / tuples / dicts, the very first call on a fresh calendar (bdays(add) or a short drange '1b' between non-business days), closures of 33-55 days, one holiday list edited in place and registered again"
 ASSUMPTIONS = ['dates stay inside the calendar range (150-day margins); leaving it is outside the statement', 'holidays are supplied as midnight datetimes',
                "Calendar.drange is claimed for '1b' only, with t0 <= t1"]
 DAY = datetime.timedelta(1)
@@ -316,12 +316,28 @@ def run_case(case, ctx):
                 t_ = rng.choice(ends) if ends and rng.random() < 0.5 else rng.choice(nonb)
                 n_ = rng.choice([1, -1])
                 sb.reset()
-                ctx.monitors['bdays_inverse_of_add'] += 1
-                st_, got_ = ctx.call(lambda: cal.bdays(t_, cal.add(t_, n_)))
-                if st_ != 'ok' or got_ != n_:
-                    ctx.fail('bdays_inverse_of_add', 'first call on a freshly registered calendar: bdays(%s, add(t, %d)) = %s %r; cfg=%s' % (t_, n_, st_, got_, _brief(cfg)))
-                    return
-                ctx.cls('first_call_on_fresh_calendar')
+                if rng.random() < 0.5:
+                    # ... or a short drange '1b' between two non-business days (or from one to a few days on) as the first question
+                    u_ = t_ + DAY * rng.choice([0, 1, 2, 3, 5, 9, 16, 30])
+                    near_ = [d_ for d_ in nonb if t_ <= d_ <= t_ + DAY * 30]
+                    if rng.random() < 0.6 and near_:
+                        u_ = rng.choice(near_)
+                    adj_ = cfg['adj']
+                    i0_, i1_ = m.idx[m.adjust(t_, adj_)], m.idx[m.adjust(u_, adj_)]
+                    exp_ = m.bd[i0_:i1_ + 1]
+                    ctx.monitors['drange_1b'] += 1
+                    st_, got_ = ctx.call(cal.drange, t_, u_, '1b')
+                    if st_ != 'ok' or list(got_) != exp_:
+                        ctx.fail('drange_1b', "first call on a freshly registered calendar: drange(%s, %s, '1b') = %s %r, model %s; cfg=%s" % (t_, u_, st_, got_ if st_ != 'ok' else got_[:8], exp_[:8], _brief(cfg)))
+                        return
+                    ctx.cls('first_call_on_fresh_calendar:drange')
+                else:
+                    ctx.monitors['bdays_inverse_of_add'] += 1
+                    st_, got_ = ctx.call(lambda: cal.bdays(t_, cal.add(t_, n_)))
+                    if st_ != 'ok' or got_ != n_:
+                        ctx.fail('bdays_inverse_of_add', 'first call on a freshly registered calendar: bdays(%s, add(t, %d)) = %s %r; cfg=%s' % (t_, n_, st_, got_, _brief(cfg)))
+                        return
+                    ctx.cls('first_call_on_fresh_calendar')
             if not probe(ctx, cal, m, cfg, ns, case['stride'], rng, sb):
                 return
             populated.add(key)
